@@ -278,7 +278,7 @@ def sweep_jobs(module):
     """Deterministic single-point variants: for the first instance of every custom-format op name in
     the module: add a discardable attribute, drop each attribute / property, set each property that has
     a declared default to that default; for the first instance of every (op name, operand count) with a
-    variadic/optional operand definition: duplicate / remove one operand (see change_operand_count)."""
+    variadic/optional operand definition and every distinct (operand count, dense integer arrays) shape: duplicate / remove one operand (see change_operand_count)."""
     seen = set()
     seen_shape = set()
     jobs = []
@@ -287,15 +287,16 @@ def sweep_jobs(module):
         if o is module or type(o).print is Operation.print:
             continue
         get_def = getattr(type(o), "get_irdl_definition", None)
-        # operand-count variants: first instance of every (op name, operand count) shape
-        if get_def is not None and (o.name, len(o.operands)) not in seen_shape and \
-                any(_is_variadic(d) for _, d in get_def().operands):
-            seen_shape.add((o.name, len(o.operands)))
+        # operand-count variants: first instance of every (op name, operand count, integer arrays) shape
+        if get_def is not None and any(_is_variadic(d) for _, d in get_def().operands):
             n = len(o.operands)
-            idxs = sorted(set(list(range(min(n, 6))) + list(range(max(0, n - 2), n))))
-            for i in idxs:
-                jobs.append(["dup_operand", pos, f"{i}/{n}"])
-                jobs.append(["del_operand", pos, f"{i}/{n}"])
+            shape = (f"{n}/" + "|".join(",".join(map(str, v)) for _, _, v in _int_arrays(o)))[:80]
+            if (o.name, shape) not in seen_shape:
+                seen_shape.add((o.name, shape))
+                idxs = sorted(set(list(range(min(n, 6))) + list(range(max(0, n - 2), n))))
+                for i in idxs:
+                    jobs.append(["dup_operand", pos, f"{i}/{shape}"])
+                    jobs.append(["del_operand", pos, f"{i}/{shape}"])
         if o.name in seen:
             continue
         seen.add(o.name)
@@ -419,22 +420,28 @@ def apply_sweep_mut(module, mut) -> bool:
 def checks(h):
     ch = corpus.chunks()
     files = sorted({rel for rel, _, _ in ch})
-    if h.quick:
-        # a seed-dependent sixth of the corpus FILES per run
-        files = [f for i, f in enumerate(files) if (i + h.seed) % 6 == 0]
+    # quick: attribute/property sweeps and the plain corpus round trip on a seed-dependent sixth of the
+    # corpus FILES; operand-count variants on all files, de-duplicated per shard instead of per file.
+    # thorough: everything on every file. Every quick case is also a thorough case.
+    attr_files = [f for i, f in enumerate(files) if (i + h.seed) % 6 == 0] if h.quick else files
+    rest = [f for f in files if f not in set(attr_files)]
     # files are the unit of sharding and of de-duplication, so that the set of cases does not depend on
     # the number of shards: per file, every (op name, mutation) is exercised on its first instance
-    mine = {f for i, f in enumerate(files) if i % h.nshards == h.shard}
+    mine = {f for i, f in enumerate(attr_files) if i % h.nshards == h.shard} | \
+           {f for i, f in enumerate(rest) if i % h.nshards == h.shard}
+    attr_files = set(attr_files)
     done: set = set()
+    gdone: set = set()
     cur = None
-    for rel, idx, _ in ch:
+    for rel, idx, text in ch:
         if rel not in mine:
             continue
+        full = rel in attr_files
         if rel != cur:
             cur, done = rel, set()
         r = {"kind": "corpus", "file": rel, "idx": idx}
-        run(h, r)
-        text = next(t for rl, ix, t in ch if rl == rel and ix == idx)
+        if full:
+            run(h, r)
         if len(text) <= BIG:
             units = [r]
         else:
@@ -450,9 +457,19 @@ def checks(h):
             if module is None:
                 continue
             for mut in sweep_jobs(module):
+                opnd = mut[0].endswith("_operand")
+                if not full and not opnd:
+                    continue
                 opname = list(module.walk())[mut[1]].name
                 key = (opname, mut[0], mut[2])
-                if key in done:
+                seen = done
+                if h.quick and opnd:
+                    # quick: first and last operand position; one instance per (op, operand count)
+                    i, n = mut[2].split("/")[:2]
+                    if int(i) not in (0, int(n) - 1):
+                        continue
+                    key, seen = (opname, mut[0], i, n), gdone
+                if key in seen:
                     continue
-                done.add(key)
+                seen.add(key)
                 run(h, {**unit, "kind": "sweep", "mut": mut})
